@@ -19,6 +19,7 @@ recipe = {
   'surfaces': [[col, layer, frac], ...]   # column index (mod n), underground layer index (mod n), position in the layer:
                                           #   frac == 0 -> exactly on the layer's bottom boundary; 0<frac<1 inside; frac>=1 -> above
                                           #   the top of the model by (frac-1) layer thicknesses (layer forced to the top one)
+  'sunk': [[col, depth]],                 # columns whose surface is `depth` below the bottom of the model (no blocks)
   'centres': [[col, fx, fy]],             # specified column centres (offset from centroid, fraction of bounding box)
   'wells': [{'name': 'W   1', 'pts': [[fx, fy, fz], ...]}],
   'header': {'unit': ''|'FEET ', 'perm_angle': a, 'atmos_volume': v, 'atmos_connection': d}
@@ -372,6 +373,11 @@ def build(rc):
         if z <= und[-1].bottom: z = und[-1].centre      # never at or below the bottom of the model
         col.surface = float(z)
         g.set_column_num_layers(col)
+    for ci, depth in rc.get('sunk', []):
+        # a column whose surface lies below the bottom of the model: it has no blocks at all (legal; files carry it)
+        col = column_at(g, ci, rc)
+        col.surface = float(und[-1].bottom - depth)
+        g.set_column_num_layers(col)
     for ci, fx, fy in rc.get('centres', []):
         col = column_at(g, ci, rc)
         bb = col.bounding_box
@@ -614,6 +620,7 @@ def describe(rc):
     out.append('surfaces:%s' % ('0' if ns == 0 else 'some'))
     if any(fr >= 1 for _c, _l, fr in rc.get('surfaces', [])): out.append('surface:above-top')
     if any(fr == 0 for _c, _l, fr in rc.get('surfaces', [])): out.append('surface:on-boundary')
+    if rc.get('sunk'): out.append('surface:below-model-bottom')
     if rc.get('wells'): out.append('wells')
     if rc.get('header', {}).get('unit'): out.append('feet')
     return out
